@@ -199,12 +199,16 @@ Section Assembly.
       exists t, wl, it'. auto.
   Qed.
 
+  Definition TNew (s : searcher) (S : Z -> bool) : Prop := TInv s S 0.
+  Lemma term_new : forall lf f, new_exact (snext lf (Datatypes.S f)) TInv TFin TNew.
+  Proof. intros lf f c S H. exact (ct_next _ _ _ _ _ (term_contract lf f) c S 0 H). Qed.
+
   (* ---------- conjunctions and slice disjunctions of term searchers ---------- *)
 
   Definition KInv (s : searcher) (S : Z -> bool) (lo : Z) : Prop :=
     0 <= lo /\
-    ((exists st Ss, s = SConj st /\ conj_inv searcher TInv TFin N Ss st lo /\ (forall x, S x = conj_S Ss x)) \/
-     (exists st Ss dmin, s = SDisjS st /\ dsl_inv searcher TInv TFin N Ss dmin st lo /\ (forall x, S x = disj_S Ss dmin x))).
+    ((exists st Ss, s = SConj st /\ conj_inv searcher TInv TFin TNew N Ss st lo /\ (forall x, S x = conj_S Ss x)) \/
+     (exists st Ss dmin, s = SDisjS st /\ dsl_inv searcher TInv TFin TNew N Ss dmin st lo /\ (forall x, S x = disj_S Ss dmin x))).
   Definition KFin (s : searcher) (S : Z -> bool) (lo : Z) : Prop := True.
 
   Variable W : nat.   (* a bound on the number of clauses of a conjunction *)
@@ -217,7 +221,7 @@ Section Assembly.
   Definition narrow (s : searcher) : Prop :=
     match s with SConj st => (length (cj_s st) <= W)%nat | _ => True end.
 
-  Lemma conj_inv_length : forall Ss st lo, conj_inv searcher TInv TFin N Ss st lo -> length (cj_s st) = length Ss.
+  Lemma conj_inv_length : forall Ss st lo, conj_inv searcher TInv TFin TNew N Ss st lo -> length (cj_s st) = length Ss.
   Proof.
     intros Ss st lo [[_ [H3 _]]|[[_ [_ [Hl _]]] _]]; [|exact Hl].
     destruct (all3_length _ _ _ _ H3) as [A _]. exact A.
@@ -232,7 +236,7 @@ Section Assembly.
   Proof.
     intros f s S lo [Hlo [[st [Ss [-> [Hinv HS]]]]|[st [Ss [dmin [-> [Hinv HS]]]]]]] Hnar.
     - pose proof (conj_inv_length _ _ _ Hinv) as Hlen. simpl in Hnar.
-      destruct (conj_next_spec searcher _ _ TInv TFin (term_contract lf f) N Ss lf st lo Hinv) as [r [st' [E Hpost]]].
+      destruct (conj_next_spec searcher _ _ TInv TFin (term_contract lf f) TNew (term_new lf f) N Ss lf st lo Hinv) as [r [st' [E Hpost]]].
       { apply Hlf. lia. }
       rewrite snext_conj. unfold wrap. rewrite E. cbn [rbind fst snd]. eexists _, _. split; [reflexivity|].
       destruct r as [rv|]; simpl in Hpost |- *.
@@ -242,7 +246,7 @@ Section Assembly.
         * rewrite (conj_inv_length _ _ _ Hinv'). lia.
       + destruct Hpost as [Hn [_ H3]]. split; [split; [eapply none_from_ext; [intros x; symmetry; apply HS|exact Hn]|exact I]|].
         destruct (all3_length _ _ _ _ H3) as [A _]. rewrite A. lia.
-    - destruct (dsl_next_spec searcher _ (sadv lf (Datatypes.S f)) TInv TFin (term_contract lf f) N Ss dmin lf st lo Hinv Hlo) as [r [st' [E Hpost]]].
+    - destruct (dsl_next_spec searcher _ (sadv lf (Datatypes.S f)) TInv TFin (term_contract lf f) TNew (term_new lf f) N Ss dmin lf st lo Hinv Hlo) as [r [st' [E Hpost]]].
       { apply Hlf. }
       rewrite snext_disj. unfold wrap. rewrite E. cbn [rbind fst snd]. eexists _, _. split; [reflexivity|].
       destruct r as [rv|]; simpl in Hpost |- *.
@@ -257,7 +261,7 @@ Section Assembly.
   Proof.
     intros f s S lo n [Hlo [[st [Ss [-> [Hinv HS]]]]|[st [Ss [dmin [-> [Hinv HS]]]]]]] Hnar Hn.
     - pose proof (conj_inv_length _ _ _ Hinv) as Hlen. simpl in Hnar.
-      destruct (conj_advance_spec searcher _ _ TInv TFin (term_contract lf f) N Ss lf st lo n Hinv Hn) as [r [st' [E Hpost]]].
+      destruct (conj_advance_spec searcher _ _ TInv TFin (term_contract lf f) TNew (term_new lf f) N Ss lf st lo n Hinv Hn) as [r [st' [E Hpost]]].
       { apply Hlf. lia. }
       rewrite sadv_conj. unfold wrap. rewrite E. cbn [rbind fst snd]. eexists _, _. split; [reflexivity|].
       destruct r as [rv|]; simpl in Hpost |- *.
@@ -267,7 +271,7 @@ Section Assembly.
         * rewrite (conj_inv_length _ _ _ Hinv'). lia.
       + destruct Hpost as [Hnn [_ H3]]. split; [split; [eapply none_from_ext; [intros x; symmetry; apply HS|exact Hnn]|exact I]|].
         destruct (all3_length _ _ _ _ H3) as [A _]. rewrite A. lia.
-    - destruct (dsl_advance_spec searcher _ _ TInv TFin (term_contract lf f) N Ss dmin lf st lo n Hinv Hlo Hn) as [r [st' [E Hpost]]].
+    - destruct (dsl_advance_spec searcher _ _ TInv TFin (term_contract lf f) TNew (term_new lf f) N Ss dmin lf st lo n Hinv Hlo Hn) as [r [st' [E Hpost]]].
       { apply Hlf. }
       rewrite sadv_disj. unfold wrap. rewrite E. cbn [rbind fst snd]. eexists _, _. split; [reflexivity|].
       destruct r as [rv|]; simpl in Hpost |- *.
@@ -278,6 +282,8 @@ Section Assembly.
   Qed.
 
   Definition K2Inv (s : searcher) (S : Z -> bool) (lo : Z) : Prop := KInv s S lo /\ narrow s.
+
+  Definition K2New (s : searcher) (S : Z -> bool) : Prop := K2Inv s S 0.
 
   Lemma K2_next : forall f, next_exact searcher (snext lf (Datatypes.S (Datatypes.S f))) K2Inv KFin.
   Proof.
@@ -294,6 +300,9 @@ Section Assembly.
     - destruct Hpost as [A B0]. split; [exact A|split; assumption].
     - exact Hpost.
   Qed.
+
+  Lemma K2_new : forall f, new_exact (snext lf (Datatypes.S (Datatypes.S f))) K2Inv KFin K2New.
+  Proof. intros f c S H. exact (K2_next f c S 0 H). Qed.
 
   (* ---------- the root boolean: draining it with Next ---------- *)
 
@@ -325,12 +334,12 @@ Section Assembly.
   Qed.
 
   Lemma run_loop_bool : forall cnt f st lo acc,
-    bool_inv searcher smin K2Inv KFin N Sm Ss Sn smin0 st lo -> 0 <= lo -> (Z.to_nat (N - lo) < cnt)%nat ->
+    bool_inv searcher smin K2Inv KFin K2New N Sm Ss Sn smin0 st lo -> 0 <= lo -> (Z.to_nat (N - lo) < cnt)%nat ->
     run_loop lf (Datatypes.S (Datatypes.S (Datatypes.S f))) cnt (SBool st) acc = Ok (rev acc ++ members lo).
   Proof.
     induction cnt as [| cnt IH]; intros f st lo acc Hinv Hlo Hcnt; [lia|].
     cbn [run_loop]. rewrite snext_bool. unfold wrap.
-    destruct (bool_next_spec searcher _ _ smin K2Inv KFin (K2_next f) (K2_adv f)
+    destruct (bool_next_spec searcher _ _ smin K2Inv KFin (K2_next f) (K2_adv f) K2New (K2_new f)
                 (proj1 (smin_static lf _)) (proj2 (smin_static lf _)) N Sm Ss Sn smin0 lf st lo Hinv Hlo (proj1 Hlf))
       as [r [st' [E Hpost]]].
     rewrite E. cbn [rbind fst snd]. destruct r as [rv|]; simpl in Hpost.
@@ -717,7 +726,7 @@ Lemma run_flat_core : forall sn musts shoulds nots ms bm,
   let bs := match shoulds with [] => None | _ => Some (mk_disj_slice (tsearchers sn shoulds) ms) end in
   let bn := match nots with [] => None | _ => Some (mk_disj_slice (tsearchers sn nots) 1) end in
   let W := swidth (mk_bool bm bs bn) in
-  opt_new searcher (K2Inv sn W) (total_docs sn) bm (flat_Sm sn musts) ->
+  opt_new searcher (K2New sn W) (total_docs sn) bm (flat_Sm sn musts) ->
   run_loop (loop_fuel sn W) (depth_fuel (flatq musts shoulds nots ms)) (Datatypes.S (Z.to_nat (total_docs sn))) (mk_bool bm bs bn) [] =
   Ok (sem_numbers (flatq musts shoulds nots ms) sn).
 Proof.
@@ -739,8 +748,8 @@ Proof.
     right. split; [|reflexivity]. unfold bool_fresh. cbn [b_init b_done b_cm b_cs b_cmn b_must b_should b_mustnot].
     split; [reflexivity|]. split; [reflexivity|]. split; [reflexivity|]. split; [reflexivity|]. split; [reflexivity|].
     assert (Hdisj : forall l k, l <> [] ->
-              opt_new searcher (K2Inv sn W) (total_docs sn) (Some (mk_disj_slice (tsearchers sn l) k)) (Some (disj_S (tdenots sn l) k))).
-    { intros l k Hl. unfold opt_new. split; [apply disj_S_bounded|]. split; [|exact I]. split; [lia|]. right.
+              opt_new searcher (K2New sn W) (total_docs sn) (Some (mk_disj_slice (tsearchers sn l) k)) (Some (disj_S (tdenots sn l) k))).
+    { intros l k Hl. unfold opt_new, K2New. split; [apply disj_S_bounded|]. split; [|exact I]. split; [lia|]. right.
       eexists _, (tdenots sn l), k. split; [reflexivity|]. split; [|intros x; reflexivity].
       right. split; [|reflexivity]. unfold dsl_fresh. cbn [ds_init ds_min ds_s]. split; [reflexivity|]. split; [reflexivity|].
       split; [unfold tsearchers, tdenots; rewrite !map_length; reflexivity|].
@@ -767,7 +776,7 @@ Proof.
   assert (HW : (length musts <= W)%nat).
   { unfold W, mk_bool, bm. cbn [swidth]. destruct musts as [| m0 mr]; [simpl; lia|].
     unfold mk_conj. cbn [swidth]. unfold tsearchers. rewrite map_length. lia. }
-  unfold bm, flat_Sm. destruct musts as [| m0 mr]; [exact I|]. unfold opt_new. split; [apply conj_S_bounded; discriminate|].
+  unfold bm, flat_Sm. destruct musts as [| m0 mr]; [exact I|]. unfold opt_new, K2New. split; [apply conj_S_bounded; discriminate|].
   split; [|unfold narrow, mk_conj; cbn [cj_s]; unfold tsearchers; rewrite map_length; exact HW]. split; [lia|]. left.
   eexists _, (tdenots sn (m0 :: mr)). split; [reflexivity|]. split; [|intros x; reflexivity].
   right. split; [|reflexivity]. unfold conj_fresh. cbn [cj_init cj_max cj_s]. split; [reflexivity|]. split; [reflexivity|].
@@ -971,7 +980,7 @@ Proof.
   - exact I.
   - (* a single must clause: no push-down *)
     assert (HW : (1 <= W)%nat) by (unfold W, mk_bool; cbn [swidth]; apply Nat.le_trans with 3%nat; [lia|apply Nat.le_max_l]).
-    unfold flat_Sm, opt_new. split; [apply conj_S_bounded; discriminate|].
+    unfold flat_Sm, opt_new, K2New. split; [apply conj_S_bounded; discriminate|].
     split; [|unfold narrow, mk_conj; cbn [cj_s]; simpl; exact HW]. split; [lia|]. left.
     eexists _, (tdenots sn [m0]). split; [reflexivity|]. split; [|intros x; reflexivity].
     right. split; [|reflexivity]. unfold conj_fresh. cbn [cj_init cj_max cj_s]. split; [reflexivity|]. split; [reflexivity|].
